@@ -29,9 +29,10 @@ pub mod c11;
 pub mod c14;
 pub mod c15;
 pub mod c16;
+pub mod c17;
 pub mod c18;
 
-pub const ALL: &[&str] = &["C01", "C02", "C03", "C04", "C05", "C09", "C10", "C11", "C14", "C15", "C16", "C18"];
+pub const ALL: &[&str] = &["C01", "C02", "C03", "C04", "C05", "C09", "C10", "C11", "C14", "C15", "C16", "C17", "C18"];
 
 pub fn lookup(id: &str) -> Option<Prop> {
     match id {
@@ -46,6 +47,7 @@ pub fn lookup(id: &str) -> Option<Prop> {
         "C14" => Some(Prop { id: "C14", spec: c14::spec, run: c14::run, replay: c14::replay }),
         "C15" => Some(Prop { id: "C15", spec: c15::spec, run: c15::run, replay: c15::replay }),
         "C16" => Some(Prop { id: "C16", spec: c16::spec, run: c16::run, replay: c16::replay }),
+        "C17" => Some(Prop { id: "C17", spec: c17::spec, run: c17::run, replay: c17::replay }),
         "C18" => Some(Prop { id: "C18", spec: c18::spec, run: c18::run, replay: c18::replay }),
         _ => None,
     }
